@@ -229,6 +229,18 @@ CHECKS = {
              'only where the observed answer equals the spec with that single rule switched on; exponent / bare-dot numbers, seconds, XML type '
              'case are ungated zones recorded as drift.',
         technique='TLA+ calendar semantics with TLC-checked theorems; TLC enumeration replayed into the code; TLC trace validation with a known-finding variant pass'),
+    'C09': dict(
+        category='model_checking',
+        text='Spelling.tla holds the lexical rewrite rules under which CSS keeps the meaning of a selector: whitespace/comment variants per '
+             'slot (11 optional, 10 required forms incl. CR LF, FF, comments), CSS escapes per identifier / string character (\\c, \\hex+space, '
+             'six digits, hex+newline) with the swallow-one-whitespace rule, quote styles and bare identifiers, ASCII case of keywords and '
+             'escapes inside pseudo-class names; TLC enumerates every spelling with <= 1 (quick) / 2 (thorough) deviating items of a 38-selector '
+             'annotated pool covering every construct that has a slot and prints its text; law over the code: compile(spelling).selectors == '
+             'compile(canonical).selectors, equal select results on an HTML and an XML document, no syntax error for a respelling.',
+        design_ref='§6 C09',
+        note='Slots are annotated by hand in the pool; the design-level theorem T-Spelling over a lexer model is not claimed (no Lexer.tla): the '
+             'oracle is code-vs-code; deviations <= 2 per spelling.',
+        technique='TLA+ rewrite-rule model; TLC-enumerated respellings compiled by the real parser; structural-equality law'),
 }
 
 PENDING = {}
